@@ -29,7 +29,7 @@ for sid in sorted(os.listdir(f"{VERIF}/seeded")):
             results[sid] = {"property": prop, "verdict": "patch-does-not-apply", "repo_head": head}
             continue
         t0 = time.time()
-        env = dict(os.environ, VERIF_REPLAY_DIR=f"/tmp/replays_seeded/{sid}", VERIF_DETERMINISM_SAMPLE="0", VERIF_WALL="900")  # full quick budget of runs even on a loaded machine
+        env = dict(os.environ, VERIF_REPLAY_DIR=f"/tmp/replays_seeded/{sid}", VERIF_DETERMINISM_SAMPLE="0")  # the quick tier as it is (run this on an otherwise idle machine)
         p = subprocess.run([f"{VERIF}/check", prop, "--tier", "quick", "--src", f"{wt}/src"],
                            capture_output=True, text=True, env=env, timeout=1800)
         wall = time.time() - t0
